@@ -78,7 +78,12 @@ TSys ==
     /\ IsEvent("Sys")
     /\ sk.alive
     /\ LET lab == Lab(ev.c, ev.f, ev.t, ev.m)
-           S == SettleObs(Here, lab)
+           S0 == SettleObs(Here, lab)
+           \* tolerance: a size rotation may come earlier than the limit demands (no property forbids a file that is
+           \* shorter than it could be); tried only when the step-by-step decision does not explain the observed call
+           S1 == SettleObs([Here EXCEPT !.sk.early = (cfg.L > 0)], lab)
+           Fits(X) == ~AtRest(X) /\ NeedsSys(X) /\ lab \in ObservableLabels(X)
+           S == IF Fits(S0) \/ ~Fits(S1) THEN S0 ELSE S1
        IN  IF ~AtRest(S) /\ NeedsSys(S) /\ lab \in ObservableLabels(S)
            THEN /\ SysEnabled(S, lab, ev.ok)
                 \* a write to the active file carries exactly the bytes the spec expects
